@@ -205,4 +205,4 @@ def replay(payload):
     return handler(pid, fl)
 
 
-REPLAYERS = {'sources': io_family.replay_c18, 'sources-bytes': io_family.replay_c18, 'sources-escape': io_family.replay_c18, 'cli-noinput': io_family.replay_c19_s3, 'cli-detect-completed': io_family.replay_c19_s3, 'listing': io_family.replay_c18, 'collection-sources': io_family.replay_c18, 'cli': io_family.replay_c19, 'cli-s3': io_family.replay_c19_s3, 'cli-process': io_family.replay_c19_s3, 'alias-history': alias_family.replay, 'alias-targeted': alias_family.replay, 'alias-fresh-process': alias_family.replay, 'roundtrip': ser_family.replay, 'roundtrip-locale': ser_family.replay_locale, 'roundtrip-cli': ser_family.replay_cli, 'elements': elem_family.replay, 'elements-sources': elem_family.replay_sources, 'classify': class_family.replay, 'classify-bytes': class_family.replay, 'access': access_family.replay, 'access-text': access_family.replay_text, 'access-sources': access_family.replay_sources, 'collection': coll_family.replay, 'collection-perm': coll_family.replay, 'validate': coll_family.replay, 'collection-stages': coll_family.replay}
+REPLAYERS = {'sources': io_family.replay_c18, 'sources-bytes': io_family.replay_c18, 'sources-escape': io_family.replay_c18, 'cli-noinput': io_family.replay_c19_s3, 'cli-detect-completed': io_family.replay_c19_s3, 'listing': io_family.replay_c18, 'collection-sources': io_family.replay_c18, 'cli': io_family.replay_c19, 'cli-s3': io_family.replay_c19_s3, 'cli-process': io_family.replay_c19_s3, 'alias-history': alias_family.replay, 'alias-targeted': alias_family.replay, 'alias-fresh-process': alias_family.replay, 'roundtrip': ser_family.replay, 'roundtrip-locale': ser_family.replay_locale, 'roundtrip-cli': ser_family.replay_cli, 'elements': elem_family.replay, 'elements-carried': elem_family.replay, 'elements-sources': elem_family.replay_sources, 'classify': class_family.replay, 'classify-bytes': class_family.replay, 'access': access_family.replay, 'access-text': access_family.replay_text, 'access-sources': access_family.replay_sources, 'collection': coll_family.replay, 'collection-perm': coll_family.replay, 'validate': coll_family.replay, 'collection-stages': coll_family.replay}
